@@ -4,17 +4,70 @@
 
 package dict
 
+//@ # ---- well-formed parser: the indexes hold no nil entries (xml decoding creates the objects Load stores) ----
+//@ spec pwf(p *Parser) bool = (forall k codeIdx :: has(p.command, k) ==> p.command[k] != nil) &&
+//@      (forall k codeIdx :: has(p.avpcode, k) ==> p.avpcode[k] != nil) && (forall k nameIdx :: has(p.avpname, k) ==> p.avpname[k] != nil)
+//@ # parent application (scoped dictionaries); the literal of util.go, checked against dict.init by a table obligation
+//@ spec par(a uint32) uint32 = (a == 16777251 || a == 16777238) ? 4 : a == 4 ? 1 : 0
+//@ # does application a define the AVP named by code (a name, or a number given as uint32 / int) for this vendor key
+//@ spec hit(p *Parser, a uint32, code any, v uint32) bool =
+//@      typeis(code, string) ? has(p.avpname, mk(nameIdx, a, code.(string), v)) :
+//@      typeis(code, uint32) ? has(p.avpcode, mk(codeIdx, a, code.(uint32), v)) :
+//@      typeis(code, int) ? has(p.avpcode, mk(codeIdx, a, uint32(code.(int)), v)) : false
+//@ spec get(p *Parser, a uint32, code any, v uint32) *AVP =
+//@      typeis(code, string) ? p.avpname[mk(nameIdx, a, code.(string), v)] :
+//@      typeis(code, uint32) ? p.avpcode[mk(codeIdx, a, code.(uint32), v)] : p.avpcode[mk(codeIdx, a, uint32(code.(int)), v)]
+//@ spec codeok(code any) bool = typeis(code, string) || typeis(code, uint32) || typeis(code, int)
+//@
 //@ func (*Parser).FindAVPWithVendor(p, appid, code, vendorID) (avp, err)
 //@   property C17
-//@   requires p != nil
+//@   requires p != nil && pwf(p)
+//@   assume parent_table: (forall k uint32 :: has(parentAppIds, k) <==> (k == 16777251 || k == 16777238 || k == 4)) &&
+//@          parentAppIds[16777251] == 4 && parentAppIds[16777238] == 4 && parentAppIds[4] == 1
 //@   modifies
 //@   ensures found: err == nil ==> avp != nil
 //@   ensures placeholder: typeis(code, uint32) ==> avp != nil
+//@   ensures [C17] own_application_first: hit(p, appid, code, vendorID) ==> err == nil && avp == get(p, appid, code, vendorID)
+//@   ensures [C17] then_parent: appid != 0 && !hit(p, appid, code, vendorID) && hit(p, par(appid), code, vendorID) ==> err == nil && avp == get(p, par(appid), code, vendorID)
+//@   ensures [C17] then_grandparent: appid != 0 && par(appid) != 0 && !hit(p, appid, code, vendorID) && !hit(p, par(appid), code, vendorID) && hit(p, par(par(appid)), code, vendorID) ==>
+//@           err == nil && avp == get(p, par(par(appid)), code, vendorID)
+//@   ensures [C17] then_base: appid != 0 && par(appid) != 0 && par(par(appid)) != 0 && !hit(p, appid, code, vendorID) && !hit(p, par(appid), code, vendorID) &&
+//@           !hit(p, par(par(appid)), code, vendorID) && hit(p, 0, code, vendorID) ==> err == nil && avp == get(p, 0, code, vendorID)
+//@   ensures [C17] undefined_number: typeis(code, uint32) && !hit(p, appid, code, vendorID) && (appid == 0 || !hit(p, par(appid), code, vendorID)) &&
+//@           (appid == 0 || par(appid) == 0 || !hit(p, par(par(appid)), code, vendorID)) && (appid == 0 || par(appid) == 0 || par(par(appid)) == 0 || !hit(p, 0, code, vendorID)) ==>
+//@           err != nil && avp != nil && fresh(avp) && avp.Code == code.(uint32) && avp.VendorID == vendorID && avp.Data.Type == 0 && avp.App != nil && avp.App.ID == appid
+//@   ensures [C17] undefined_other: !typeis(code, uint32) && !hit(p, appid, code, vendorID) && (appid == 0 || !hit(p, par(appid), code, vendorID)) &&
+//@           (appid == 0 || par(appid) == 0 || !hit(p, par(par(appid)), code, vendorID)) && (appid == 0 || par(appid) == 0 || par(par(appid)) == 0 || !hit(p, 0, code, vendorID)) ==>
+//@           err != nil && avp == nil
+//@   ensures [C17] bad_code_type: !codeok(code) ==> avp == nil && err != nil
+//@   loop 0
+//@     invariant [C17] on_chain: appid == appid0 || (appid0 != 0 && !hit(p, appid0, code, vendorID) && (appid == par(appid0) ||
+//@               (par(appid0) != 0 && !hit(p, par(appid0), code, vendorID) && (appid == par(par(appid0)) ||
+//@               (par(par(appid0)) != 0 && !hit(p, par(par(appid0)), code, vendorID) && appid == 0)))))
+//@     invariant no_error_yet: err == nil
+//@   end
+//@ end
+//@
+//@ func MakeUnknownAVP(appid, code, vendorID) (a)
+//@   property C17
+//@   modifies
+//@   ensures [C17] placeholder: a != nil && fresh(a) && a.Code == code && a.VendorID == vendorID && a.Data.Type == 0 && a.App != nil && a.App.ID == appid
+//@ end
+//@
+//@ func (*Parser).FindAVP(p, appid, code) (avp, err)
+//@   property C17
+//@   requires p != nil && pwf(p)
+//@   modifies
+//@   ensures [C17] wildcard_vendor: hit(p, appid, code, 4294967295) ==> err == nil && avp == get(p, appid, code, 4294967295)
 //@ end
 //@
 //@ func (*Parser).FindCommand(p, appid, code) (cmd, err)
 //@   property C17
-//@   requires p != nil
+//@   requires p != nil && pwf(p)
 //@   modifies
 //@   ensures found: err == nil <==> cmd != nil
+//@   ensures [C17] exact: has(p.command, mk(codeIdx, appid, code, 4294967295)) ==> err == nil && cmd == p.command[mk(codeIdx, appid, code, 4294967295)]
+//@   ensures [C17] base_fallback: !has(p.command, mk(codeIdx, appid, code, 4294967295)) && has(p.command, mk(codeIdx, 0, code, 4294967295)) ==>
+//@           err == nil && cmd == p.command[mk(codeIdx, 0, code, 4294967295)]
+//@   ensures [C17] none: !has(p.command, mk(codeIdx, appid, code, 4294967295)) && !has(p.command, mk(codeIdx, 0, code, 4294967295)) ==> err != nil && cmd == nil
 //@ end
